@@ -160,6 +160,11 @@ pub fn bfs<S: Sys>(sys: &S, max_depth: usize, max_states: usize, keep_transition
         }
         frontier = next;
         depth += 1;
+        // a violation ends the search of this system after the level in which it was found: the verdict is settled,
+        // and a broken implementation need not have a finite product any more
+        if !res.violations.is_empty() {
+            break;
+        }
     }
     res.fixpoint = frontier.is_empty();
     res.depth = depth;
